@@ -2,9 +2,9 @@ package main
 
 var props = map[string]propSpec{
 	"C01": {Level: "model_checking", Harnesses: []harnessSpec{
-		{Name: "c01", Quick: 60, Thorough: 900},
-		{Name: "agentw", Quick: 60, Thorough: 900, Args: []string{"-prop", "C01"}},
-		{Name: "joined", Quick: 90, Thorough: 900, Args: []string{"-prop", "C01"}},
+		{Name: "c01", Quick: 300, Thorough: 900},
+		{Name: "agentw", Quick: 300, Thorough: 900, Args: []string{"-prop", "C01"}},
+		{Name: "joined", Quick: 300, Thorough: 900, Args: []string{"-prop", "C01"}},
 	}, Assume: []string{
 		"whole system (harness joined): server main() and agent main() in one explored process, the agent's client reaching the proxy handler through a loop-back transport; K<=3 clients, delay bound 1-3 (thorough 2-4)",
 		"agent side (harness agentw): the agent program between a scripted proxy and a scripted backend with 2-3 requests in flight; delay-bounded schedules (bound 2, thorough 3)",
@@ -13,22 +13,22 @@ var props = map[string]propSpec{
 		"the agent side of the wire protocol is played by harness threads that follow utils.go's request/response format",
 	}},
 	"C05": {Level: "model_checking", Harnesses: []harnessSpec{
-		{Name: "fwd", Quick: 60, Thorough: 600, Args: []string{"-prop", "C05"}},
-		{Name: "agentw", Quick: 60, Thorough: 600, Args: []string{"-prop", "C05"}},
+		{Name: "fwd", Quick: 300, Thorough: 600, Args: []string{"-prop", "C05"}},
+		{Name: "agentw", Quick: 300, Thorough: 600, Args: []string{"-prop", "C05"}},
 	}, Assume: []string{
 		"whole agent (harness agentw): the same lock-step through main() with a scripted backend whose response body produces chunk i only after the scripted proxy has seen chunk i-1 in the upload: plain, websocket-shim script injection, sessions, banner and all of them together x HTML / JSON / event-stream x chunk patterns with and without <head>, around the 1 KiB peek of the injection; httputil.ReverseProxy's periodic flush is real-time and plays no part (its writes reach the forwarder at once)",
 		"'within bounded time' is decided as logical progress: the backend-side handler continues only after the proxy endpoint has read every payload byte flushed so far; any stage that holds bytes back deadlocks under every schedule",
 	}},
 	"C06": {Level: "fault_enumeration", Harnesses: []harnessSpec{
-		{Name: "fwd", Quick: 200, Thorough: 1800, Args: []string{"-prop", "C06"}},
+		{Name: "fwd", Quick: 400, Thorough: 1800, Args: []string{"-prop", "C06"}},
 	}, Assume: []string{
 		"the proxy endpoint is a scripted http.RoundTripper; 'lingering' models net/http's documented freedom to keep reading the request body after RoundTrip returns (one more Read, as the transport's write loop does)",
 		"fault plans: up to 3 attempts, kinds {5xx, connection error}, read positions {0,1,17,4095,4096,4097,all}",
 	}},
 	"C03": {Level: "model_checking", Harnesses: []harnessSpec{
-		{Name: "fwd", Quick: 60, Thorough: 600, Args: []string{"-prop", "C03"}},
-		{Name: "bbox", NoRewrite: true, Quick: 240, Thorough: 1800, Args: []string{"-prop", "C03"}},
-		{Name: "fwd", Quick: 90, Thorough: 900, Args: []string{"-prop", "C06", "-report", "C03", "-scn", "c06/plain"}},
+		{Name: "fwd", Quick: 300, Thorough: 600, Args: []string{"-prop", "C03"}},
+		{Name: "bbox", NoRewrite: true, Quick: 300, Thorough: 1800, Args: []string{"-prop", "C03"}},
+		{Name: "fwd", Quick: 300, Thorough: 900, Args: []string{"-prop", "C06", "-report", "C03", "-scn", "c06/plain"}},
 	}, Assume: []string{
 		"retried uploads (harness fwd, fault plans without lingering readers): what an acknowledged attempt carried is what the client receives, so it must be the unaltered response too",
 		"input axis (harness bbox): the real proxy and agent binaries built from the current tree, driven over loopback by a raw TCP client and a scripted raw TCP backend; framing fields (Content-Length, Transfer-Encoding) and the reason phrase are outside the comparison; entity headers may be missing on HEAD/204/304; h2c backends are not covered",
@@ -36,78 +36,78 @@ var props = map[string]propSpec{
 		"sequentially consistent interleavings at synchronisation operations",
 	}},
 	"C04": {Level: "model_checking", Harnesses: []harnessSpec{
-		{Name: "agentw", Quick: 120, Thorough: 1200, Args: []string{"-prop", "C04"}},
-		{Name: "c01", Quick: 60, Thorough: 900, Args: []string{"-prop", "C04"}},
-		{Name: "joined", Quick: 90, Thorough: 900, Args: []string{"-prop", "C04"}},
+		{Name: "agentw", Quick: 300, Thorough: 1200, Args: []string{"-prop", "C04"}},
+		{Name: "c01", Quick: 300, Thorough: 900, Args: []string{"-prop", "C04"}},
+		{Name: "joined", Quick: 300, Thorough: 900, Args: []string{"-prop", "C04"}},
 	}, Assume: []string{
 		"agent side: the agent program (main()) against a scripted proxy; all pending-list histories up to depth 2 (quick) / 3 (thorough) over {[],[a],[b],[a,b],[b,a],[a,a],[a,b,c],error}, fetch outcomes {ok,404,503x3,503 then ok,transport error}, dedup window histories with 999/1000 filler ids; schedules: delay-bounded (every departure from the default scheduler costs one), bound 2 / 3",
 		"proxy side: harness c01 (all interleavings up to the preemption bound) checks that no request id is reported in two pending-list replies",
 	}},
 	"C07": {Level: "fault_enumeration", Harnesses: []harnessSpec{
-		{Name: "agentw", Quick: 90, Thorough: 1200, Args: []string{"-prop", "C07"}},
-		{Name: "shim", Quick: 120, Thorough: 2400, Args: []string{"-prop", "C07"}},
+		{Name: "agentw", Quick: 300, Thorough: 1200, Args: []string{"-prop", "C07"}},
+		{Name: "shim", Quick: 300, Thorough: 2400, Args: []string{"-prop", "C07"}},
 	}, Assume: []string{
 		"one fault per run out of 17 kinds (pending list, fetch, backend connect/headers/body, upload) at three positions within a stream of healthy requests plus a probe request afterwards; schedules delay-bounded (bound 1)",
 		"malformed websocket-shim input and shim call orders: the shim harness (all call sequences of depth 4/5 with malformed, unknown and closed arguments, and concurrent call pairs) reported under this property as well",
 	}},
 	"C08": {Level: "model_checking", Harnesses: []harnessSpec{
-		{Name: "agentw", Quick: 60, Thorough: 300, Args: []string{"-prop", "C08"}},
-		{Name: "backoff", NoRewrite: false, Quick: 60, Thorough: 300},
+		{Name: "agentw", Quick: 300, Thorough: 300, Args: []string{"-prop", "C08"}},
+		{Name: "backoff", NoRewrite: false, Quick: 300, Thorough: 300},
 	}, Assume: []string{
 		"loop: every fail/succeed pattern of list calls up to length 6 (quick) / 9 (thorough) plus long runs through the cap, with the jitter source pinned to {0, 0.5, 1-2^-53}, on the virtual clock; the delay after the j-th consecutive failure must be within +-10% of min(2^(j-1) ms, 3 s) and > 0",
 		"function: ExponentialBackoffDuration over 0..65536, every 2^k-1, 2^k, 2^k+1 (k<=64) and the named values, with the same three jitter answers; the full 2^64 range is covered by representatives at every power-of-two boundary, not enumerated",
 	}},
 	"C09": {Level: "exploration", Harnesses: []harnessSpec{
-		{Name: "agentw", Quick: 90, Thorough: 600, Args: []string{"-prop", "C09"}},
+		{Name: "agentw", Quick: 300, Thorough: 600, Args: []string{"-prop", "C09"}},
 	}, Assume: []string{
 		"requests are pushed through the agent program's real handler chain (flags parsed by main()); the websocket dial and the backend round trip are recorded by in-memory fakes of gorilla/websocket and of the reverse proxy's transport",
 	}},
 	"C20": {Level: "model_checking", Harnesses: []harnessSpec{
-		{Name: "agentw", Quick: 90, Thorough: 900, Args: []string{"-prop", "C20"}},
+		{Name: "agentw", Quick: 300, Thorough: 900, Args: []string{"-prop", "C20"}},
 	}, Assume: []string{
 		"virtual clock: time passes only when no thread can run; 'promptly' and 'when the period ends' are decided in virtual time",
 		"health histories up to length 5 (quick) / 7 (thorough) x thresholds {0,1,2,3}; shutdown: both signals x grace {0,2s,5s,10s} x backend latency {0,5s}, signal delivered at every point reachable with 1 (quick) / 2 (thorough) scheduler deviations",
 	}},
 	"C13": {Level: "exploration", Harnesses: []harnessSpec{
-		{Name: "shimurl", Quick: 120, Thorough: 900},
-		{Name: "shim", Quick: 120, Thorough: 600, Args: []string{"-prop", "C13"}},
+		{Name: "shimurl", Quick: 300, Thorough: 900},
+		{Name: "shim", Quick: 300, Thorough: 600, Args: []string{"-prop", "C13"}},
 	}, Assume: []string{
 		"concurrent opens (pairs and a triple of URLs naming foreign hosts, every interleaving up to the preemption bound, plain-memory access points included) and backends that answer the handshake with a 301/302/303/307/308 redirect to a foreign host, on the in-memory websocket dialler",
 		"the real gorilla dialler computes the address to connect to; only its NetDialContext is replaced (records the address, refuses the connection)",
 		"open-request bodies: every string of length <= 6 (quick) / 7 (thorough) over the alphabet a:/?#@[]%.1\\ plus a structured grammar of 23k URLs and a hand list (64 KiB, control bytes); backend host with and without port",
 	}},
 	"C11": {Level: "model_checking", Harnesses: []harnessSpec{
-		{Name: "shim", Quick: 120, Thorough: 1500, Args: []string{"-prop", "C11"}},
+		{Name: "shim", Quick: 300, Thorough: 1500, Args: []string{"-prop", "C11"}},
 	}, Assume: []string{
 		"the backend websocket peer is the in-memory rendering of gorilla/websocket's observable contract (package vws); one data post and one poll outstanding at a time, as the injected browser shim does",
 		"message alphabet: empty/ASCII/multi-byte text, JSON objects with and without resource.headers, JSON array, HTML-escaped characters, empty/short/all-256-values binary (thorough: 1 MiB text and binary); all sequences up to length 2 (quick: a third of the pairs) / 3, every batching into data posts, polls at every position, runs of 11/12/25 messages through the 10-slot queues",
 	}},
 	"C12": {Level: "model_checking", Harnesses: []harnessSpec{
-		{Name: "shim", Quick: 120, Thorough: 2400, Args: []string{"-prop", "C12"}},
+		{Name: "shim", Quick: 300, Thorough: 2400, Args: []string{"-prop", "C12"}},
 	}, Assume: []string{
 		"call sequences: every sequence of depth 4 (quick) / 5 (thorough) over 16 operations {open, data/poll/close with valid, unknown, malformed arguments, backend-send, backend-close}, each run to quiescence on the virtual clock, against a reference model of the session table",
 		"concurrency: 10 pairs (thorough: + 4 triples) of calls on one session from 5 prelude states, all interleavings up to the preemption bound",
 	}},
 	"C10": {Level: "model_checking", Harnesses: []harnessSpec{
-		{Name: "sesshist", Quick: 120, Thorough: 1200},
-		{Name: "sessconc", Quick: 90, Thorough: 900},
-		{Name: "sesslru", Quick: 90, Thorough: 600},
+		{Name: "sesshist", Quick: 300, Thorough: 1200},
+		{Name: "sessconc", Quick: 300, Thorough: 900},
+		{Name: "sesslru", Quick: 300, Thorough: 600},
 	}, Assume: []string{
 		"bounded cache: limits of 2 and 3 sessions, every request sequence of depth 7 (quick) / 8 (thorough) by four returning clients and fresh clients, against a reference least-recently-used list over the keys the handler touches (presented session or the empty key on arrival, the session's key when the header is written): a session that is among the `limit` most recently used keys must still present its cookie",
 		"histories: every sequence of 3 requests over (client A/B/fresh) x 2 hosts x 2 paths x client-side cookies x 9 backend Set-Cookie replies (set, overwrite, delete by Max-Age and by Expires, path- and domain-scoped, Secure/HttpOnly, two at once) through the real session handler, against one reference cookie jar per session; session-cache limit 1000 so that no session is evicted (eviction is outside the property's premise)",
 		"concurrency: 2-3 concurrent requests of the same / different / no session under all interleavings up to the preemption bound; groupcache's lru.Cache is a declared non-thread-safe object (vector-clock race detection)",
 	}},
 	"C14": {Level: "exploration", Harnesses: []harnessSpec{
-		{Name: "inject", Quick: 120, Thorough: 600},
-		{Name: "injconc", Quick: 120, Thorough: 600},
+		{Name: "inject", Quick: 300, Thorough: 600},
+		{Name: "injconc", Quick: 300, Thorough: 600},
 	}, Assume: []string{
 		"concurrency: pairs and triples of overlapping requests (navigations, framed requests, an image, a JSON reply) through one banner / shim / banner+shim handler, every interleaving up to the preemption bound with plain-memory access points included",
 		"the backend is a scripted transport behind a real httputil.ReverseProxy; the baseline for 'unchanged' is the same response relayed by a plain reverse proxy",
 		"an HTML document is a response whose Content-Type media type is text/html or application/xhtml+xml (case-insensitive); whether injection must happen for a given HTML reply is not demanded, only counted",
 	}},
 	"C15": {Level: "model_checking", Harnesses: []harnessSpec{
-		{Name: "bridge", Quick: 120, Thorough: 900, Args: []string{"-prop", "C15"}},
-		{Name: "bboxbridge", NoRewrite: true, Quick: 120, Thorough: 600},
+		{Name: "bridge", Quick: 300, Thorough: 900, Args: []string{"-prop", "C15"}},
+		{Name: "bboxbridge", NoRewrite: true, Quick: 300, Thorough: 600},
 	}, Assume: []string{
 		"black box (harness bboxbridge): the real tcp-bridge-frontend and tcp-bridge-backend programs as processes over loopback, the same plans without schedule control, plus HTTP pass-through requests to the bridge backend",
 		"tcp-bridge-frontend's main() and connection.Handler joined in one process; TCP is the in-memory stream fake (unbounded socket buffers), the websocket library the in-memory message fake",
@@ -115,34 +115,34 @@ var props = map[string]propSpec{
 		"the pass-through of non-bridge HTTP requests through the real tcp-bridge-backend binary is not covered",
 	}},
 	"C16": {Level: "model_checking", Harnesses: []harnessSpec{
-		{Name: "bridge", Quick: 120, Thorough: 900, Args: []string{"-prop", "C16"}},
+		{Name: "bridge", Quick: 300, Thorough: 900, Args: []string{"-prop", "C16"}},
 	}, Assume: []string{
 		"'within bounded time' is decided at quiescence: no thread can run any more and the peer still has not seen end-of-stream",
 		"histories of length <=3 (quick) / 4 (thorough) over {client write, server write, client close, server close, large client write}, plus an unreachable TCP server",
 	}},
 	"C18": {Level: "exploration", Harnesses: []harnessSpec{
-		{Name: "appw", Quick: 120, Thorough: 900, Args: []string{"-prop", "C18"}},
+		{Name: "appw", Quick: 300, Thorough: 900, Args: []string{"-prop", "C18"}},
 	}, Assume: []string{
 		"App Engine datastore/memcache/users are the in-memory fake (package vae: string keys, =,<,> filters, key-ordered results, 1 MB entity limit); no real service exists offline",
 		"backend sets: every single backend and every ordered pair over 3 owners x 10 prefix lists x 5 last-seen ages (never, 0, 4m59s, 5m, 5m1s), plus a sample of triples; 3 users x 5 paths per set; each set is also registered in reverse order; ages are produced on the virtual clock through the real store API (agent polls)",
 	}},
 	"C17": {Level: "model_checking", Harnesses: []harnessSpec{
-		{Name: "appw", Quick: 120, Thorough: 900, Args: []string{"-prop", "C17"}},
+		{Name: "appw", Quick: 300, Thorough: 900, Args: []string{"-prop", "C17"}},
 	}, Assume: []string{
 		"App Engine services are the in-memory fake (vae); caller identity, administrator flag and module are request attributes set by the harness, as App Engine's front end would",
 		"universe: two backends (one owned by user1 at /, one shared at /s), their two agents, two end users, an administrator; one client request in flight per backend; every agent call over endpoint x caller identity x named backend x request id (own, other backend's, unknown, none), alone and after each of four legitimate calls; administrator re-registering or deleting a backend between two calls of its former agent; the admin API under six identities",
 	}},
 	"C19": {Level: "fault_enumeration", Harnesses: []harnessSpec{
-		{Name: "appw", Quick: 180, Thorough: 1500, Args: []string{"-prop", "C19"}},
+		{Name: "appw", Quick: 300, Thorough: 1500, Args: []string{"-prop", "C19"}},
 	}, Assume: []string{
 		"App Engine services are the in-memory fake (vae) enforcing the 1,048,572-byte entity limit, the 1 MiB memcache item limit and the 500-key multi-operation limit",
 		"sizes: request and response bodies such that the stored (serialised) blob lands on every size in a window below and at 1,000,000 and 2,000,000 bytes, plus 0, 1, 4096 and 3,000,001; concurrency: two clients of one or two backends answered in every scripted order, by the wrong agent, or not at all (504 after 30 virtual seconds); faults: every single failing service call of one request/response cycle and every pair (quick: pairs at distance <= 6)",
 	}},
 	"C02": {Level: "exploration", Harnesses: []harnessSpec{
-		{Name: "bbox", NoRewrite: true, Quick: 240, Thorough: 2400, Args: []string{"-prop", "C02"}},
-		{Name: "agentw", Quick: 60, Thorough: 600, Args: []string{"-prop", "C02"}},
-		{Name: "joined", Quick: 90, Thorough: 900, Args: []string{"-prop", "C02"}},
-		{Name: "appw", Quick: 60, Thorough: 300, Args: []string{"-prop", "C19", "-report", "C02", "-scn", "c19/s"}},
+		{Name: "bbox", NoRewrite: true, Quick: 300, Thorough: 2400, Args: []string{"-prop", "C02"}},
+		{Name: "agentw", Quick: 300, Thorough: 600, Args: []string{"-prop", "C02"}},
+		{Name: "joined", Quick: 300, Thorough: 900, Args: []string{"-prop", "C02"}},
+		{Name: "appw", Quick: 300, Thorough: 300, Args: []string{"-prop", "C19", "-report", "C02", "-scn", "c19/s"}},
 	}, Assume: []string{
 		"the App Engine variant of the proxy stores requests as blobs split into parts: its store round trips (all orders of the concurrent part writes) and request sizes around the part limits run under this property too (harness appw)",
 		"although schedules are not in this property's quantifier, requests with bodies are also sent concurrently through the agent program (harness agentw) and through proxy + agent joined in one process (harness joined) under delay-bounded schedules: the backend must see each request's own method, target and body",
